@@ -95,6 +95,43 @@ theorem refund_ge_two {r a S x : Nat}
   have := Nat.lt_of_mul_lt_mul_right h2
   omega
 
+/-- burning more never pays less (same reserve, same supply) -/
+theorem refund_mono_amount {r a a' S x x' : Nat}
+    (h : withdrawRefund r a S = .ok x) (h' : withdrawRefund r a' S = .ok x') (haa : a ≤ a') :
+    x ≤ x' := by
+  obtain ⟨-, -, -, rfl⟩ := refund_ok_iff.1 h
+  obtain ⟨-, -, -, rfl⟩ := refund_ok_iff.1 h'
+  exact Nat.div_le_div_right (Nat.mul_le_mul_left r
+    (Nat.div_le_div_right (Nat.mul_le_mul_right E haa)))
+
+/-- a larger reserve never pays less (same burn, same supply): donations only raise refunds -/
+theorem refund_mono_reserve {r r' a S x x' : Nat}
+    (h : withdrawRefund r a S = .ok x) (h' : withdrawRefund r' a S = .ok x') (hrr : r ≤ r') :
+    x ≤ x' := by
+  obtain ⟨-, -, -, rfl⟩ := refund_ok_iff.1 h
+  obtain ⟨-, -, -, rfl⟩ := refund_ok_iff.1 h'
+  exact Nat.div_le_div_right (Nat.mul_le_mul_right _ hrr)
+
+private theorem div_superadd (m n d : Nat) : m / d + n / d ≤ (m + n) / d := by
+  rcases Nat.eq_zero_or_pos d with rfl | hd
+  · simp
+  · rw [Nat.le_div_iff_mul_le hd, Nat.add_mul]
+    exact Nat.add_le_add (Nat.div_mul_le_self m d) (Nat.div_mul_le_self n d)
+
+/-- splitting a burn (against the same reserve and supply) never pays more than burning at once -/
+theorem refund_superadditive {r a b S x y z : Nat}
+    (ha : withdrawRefund r a S = .ok x) (hb : withdrawRefund r b S = .ok y)
+    (hab : withdrawRefund r (a + b) S = .ok z) : x + y ≤ z := by
+  obtain ⟨-, -, -, rfl⟩ := refund_ok_iff.1 ha
+  obtain ⟨-, -, -, rfl⟩ := refund_ok_iff.1 hb
+  obtain ⟨-, -, -, rfl⟩ := refund_ok_iff.1 hab
+  have h1 : a * E / S + b * E / S ≤ (a + b) * E / S := by
+    rw [Nat.add_mul]; exact div_superadd _ _ _
+  calc r * (a * E / S) / E + r * (b * E / S) / E
+      ≤ (r * (a * E / S) + r * (b * E / S)) / E := div_superadd _ _ _
+    _ = r * (a * E / S + b * E / S) / E := by rw [Nat.mul_add]
+    _ ≤ r * ((a + b) * E / S) / E := Nat.div_le_div_right (Nat.mul_le_mul_left r h1)
+
 /-! ### C05 -/
 
 private theorem share_pos_iff {sender : Nat} {req : Requirements} {S d0 d1 r0 r1 m : Nat}
